@@ -1,27 +1,41 @@
 #!/usr/bin/env python3
-"""pack_seed.py ID K 'needs-to-manifest one-liner' : copy a verified seeded change from /tmp/out-ID/K into /verif/seeded/ID-K/"""
+"""pack_seed.py PROP SRCK DSTK : copy a sub-agent's change /tmp/seedwork/PROP/out/SRCK into /verif/seeded/PROP-DSTK/
+(patch.diff, notes.md, the demonstration with its intended path recorded) and write meta.json from
+SRC/verify.txt (produced by tools/verify_seed.sh). Refuses unless build OK, demo PASS without / FAIL with, suite PASS."""
 import sys, os, shutil, glob, json, re
-pid, k, needs = sys.argv[1:4]
-src = "/tmp/out-%s/%s" % (pid, k)
-dst = "/verif/seeded/%s-%s" % (pid, k)
-os.makedirs(dst, exist_ok=True)
-shutil.copy(os.path.join(src, "patch.diff"), dst)
-demo = [f for f in glob.glob(src + "/**/zz_seeded_*_test.go", recursive=True)][0]
-shutil.copy(demo, dst)
-shutil.copy(os.path.join(src, "notes.md"), os.path.join(dst, "notes.md"))
-res = open("/var/tmp/seedverify/%s-%s.txt" % (pid, k)).read()
+pid, sk, dk = sys.argv[1:4]
+force = len(sys.argv) > 4 and sys.argv[4] == "--force"
+src = "/tmp/seedwork/%s/out/%s" % (pid, sk)
+dst = "/verif/seeded/%s-%s" % (pid, dk)
+res = open(os.path.join(src, "verify.txt")).read()
 def grab(key):
     m = re.search(r"^%s: (.*)$" % key, res, re.M)
     return m.group(1) if m else None
-demoline = grab("demo")
+ok = (grab("build") or "").startswith("OK") and grab("demo_without_change") == "PASS" and grab("demo_with_change") == "FAIL" and (grab("suite") or "").startswith("PASS")
+if not ok and not force:
+    sys.exit("not confirmed: build=%s without=%s with=%s suite=%s" % (grab("build"), grab("demo_without_change"), grab("demo_with_change"), grab("suite")))
+os.makedirs(dst, exist_ok=True)
+shutil.copy(os.path.join(src, "patch.diff"), dst)
+shutil.copy(os.path.join(src, "notes.md"), os.path.join(dst, "notes.md"))
+demos = []
+for f in glob.glob(src + "/**/*_test.go", recursive=True):
+    rel = f[len(src) + 1:]
+    if rel.startswith("demo/"): rel = rel[5:]
+    shutil.copy(f, dst)
+    demos.append(rel)
+notes = open(os.path.join(src, "notes.md")).read()
+needs = ""
+m = re.search(r"(?is)#+[^\n]*(needs|manifest)[^\n]*\n(.*?)(\n#|\Z)", notes)
+if m: needs = " ".join(m.group(2).split())[:600]
 meta = {
     "property": pid,
-    "source": "independent sub-agent given only the property text and a scratch worktree",
+    "round": 3,
+    "source": "independent sub-agent given only the property text (plus a list of functions already taken by earlier seeds) and a scratch worktree; nothing from /verif",
     "changed_files": re.findall(r"^\+\+\+ b/(.*)$", open(os.path.join(dst, "patch.diff")).read(), re.M),
     "needs_to_manifest": needs,
-    "demonstration": demoline,
+    "demonstration": {"files": demos, "tests": grab("demo")},
     "confirmed_by_me": {
-        "how": "/var/tmp/tools/verify_seed.sh (fresh worktree of /repo HEAD; go build ./...; demo test without and with the patch; whole suite in a private network namespace compared with the stable baseline of /root/.vp/BASELINE.json, up to 3 tries because gossip/port tests flake under load)",
+        "how": "/verif/tools/verify_seed.sh (fresh worktree of /repo HEAD under /tmp; go build+vet; demo without and with the patch; whole suite with the patch in a private network namespace compared with stable_pass of /root/.vp/BASELINE.json, tests missing from the pass set re-run alone up to 2 more times)",
         "build": grab("build"),
         "demo_without_change": grab("demo_without_change"),
         "demo_with_change": grab("demo_with_change"),
@@ -30,4 +44,4 @@ meta = {
     "detected_by": [],
 }
 json.dump(meta, open(os.path.join(dst, "meta.json"), "w"), indent=1)
-print("packed", dst)
+print("packed", dst, "needs:", needs[:100])
